@@ -305,6 +305,28 @@ def run(cx):
         okc = len(c3) == 1 and all(match('(index (param points) (call Uniform::sample _ _))', cx.arg(c3[0], k)) is not None for k in range(3))
         cx.ob('EXPR', 'ransac:candidates', okc, 'candidates are circles through three sampled input points', where=b.file)
 
+    # ---------------------------------------------------------------- Gaussian weighting of the circle fit
+    b = cx.fn('geom2::circle2::compute_weights_mut')
+    if b:
+        dag = b.dag()
+        D = '(div (call f64::abs (or (sub _ (unwrap (call *compute_mean _))) (call f64::sub _ (unwrap (call *compute_mean _))))) (unwrap (call *compute_st_dev _)))'
+        seen = {}
+        for m in b.mutations():
+            if m.kind != 'store' or not m.elem:
+                continue
+            rv = m.data['rv']
+            # the stored weight: a constant per branch, or one store of `if d > sigma {0.0} else {1.0}` (alternatives with their guards)
+            alts = cx.alts(b, rv['a'], m.bb, m.idx) if rv['k'] == 'use' else [(m.bb, simplify(dag.rvalue(rv, m.bb, m.idx)), cx.guards(b, m.bb))]
+            for (dbb, val, g) in alts:
+                if val not in (('const', 0.0), ('const', 1.0)):
+                    continue
+                lits = set(g) | set(cx.guards(b, m.bb))
+                rej = any(p and match(f'(lt $sigma {D})', a) is not None for a, p in lits)
+                keep = any((not p) and match(f'(lt $sigma {D})', a) is not None for a, p in lits)
+                seen[val[1]] = 'rejected-under-d>sigma' if rej and not keep else ('kept-otherwise' if keep and not rej else 'other')
+        cx.ob('GUARD', 'compute_weights_mut:outlier-test', seen == {0.0: 'rejected-under-d>sigma', 1.0: 'kept-otherwise'},
+              'a sample gets weight 0 exactly when its score |r - mean| / std is greater than sigma and weight 1 otherwise - in particular when the score is NaN '
+              '(all residuals equal, std = 0): `d <= sigma` is not the negation of `d > sigma` for floats', where=b.file, found=str(seen))
     # ---------------------------------------------------------------- Series1::best_fit_line (closed form) as an identity
     b = cx.fn('func1::series1::Series1::best_fit_line')
     if b:
